@@ -1454,3 +1454,216 @@ func vbCountSource(c *Ctx, id string) {
 		c.Undecided(id, "vb-count", 0, "no call of NewVBucketDiscovery found")
 	}
 }
+
+// roundTickerUntouched (C19): the health check's rounds are paced by one ticker, created with the configured interval
+// where the loop starts and stopped only when the loop ends (a deferred Stop in the function that created it). Nothing
+// else stops, resets or is handed that ticker: a round that "pauses" it and re-arms it conditionally leaves the
+// checker silent for good after a recovered round — no further ping, no fail-stop.
+func roundTickerUntouched(c *Ctx, id string) {
+	w := c.W
+	n := 0
+	for _, fn := range w.ModFuncs {
+		r := rootFn(fn)
+		if r.Signature.Recv() == nil || recvTypeName(r.Signature.Recv().Type()) != "healthCheck" {
+			continue
+		}
+		allInstrs(fn, func(in ssa.Instruction) {
+			cc := callOf(in)
+			if cc == nil {
+				return
+			}
+			name := calleeName(cc)
+			switch {
+			case name == "time.NewTicker":
+				n++
+				c.see(fn)
+				call, _ := in.(*ssa.Call)
+				o := w.Origin(cc.Args[0])
+				okIv := strings.HasSuffix(o, ".config.Interval") || strings.HasSuffix(o, ".Interval")
+				// uses of the ticker: its channel, and one deferred Stop in this function
+				var bad []string
+				if call != nil {
+					var walk func(v ssa.Value)
+					seen := map[ssa.Value]bool{}
+					walk = func(v ssa.Value) {
+						if seen[v] || v.Referrers() == nil {
+							return
+						}
+						seen[v] = true
+						for _, u := range *v.Referrers() {
+							switch x := u.(type) {
+							case *ssa.FieldAddr, *ssa.Field:
+								// .C
+							case *ssa.DebugRef:
+							case *ssa.Store:
+								if x.Val == v {
+									followCell(x.Addr, walk)
+								}
+							case *ssa.Defer:
+								if calleeName(x.Common()) != "(*time.Ticker).Stop" {
+									bad = append(bad, "deferred "+calleeName(x.Common())+" @"+w.pos(x.Pos()))
+								}
+							case ssa.CallInstruction:
+								bad = append(bad, calleeName(x.Common())+" @"+w.pos(x.Pos()))
+							case *ssa.MakeClosure:
+								bad = append(bad, "captured by a nested function @"+w.pos(x.Pos()))
+							case *ssa.Phi:
+								walk(x)
+							}
+						}
+					}
+					walk(call)
+				}
+				c.Check(okIv && len(bad) == 0, id, "round-ticker@"+fname(fn), in.Pos(), "created with the configured interval; only its channel is read and its Stop deferred", fmt.Sprintf("the ticker that paces the rounds (interval %s) is touched outside its creation and its deferred Stop: %s", o, strings.Join(bad, "; ")))
+			case name == "(*time.Ticker).Reset":
+				c.Fail(id, "round-ticker-reset@"+fname(fn), in.Pos(), "the health check resets a ticker: the pace of the rounds is no longer the configured interval")
+			}
+		})
+	}
+	if n == 0 {
+		c.Undecided(id, "round-ticker", 0, "no ticker is created by the health check (its loop was paced by time.NewTicker(config.Interval) when this rule was written)")
+	}
+}
+
+// ---------------------------------------------------------------------------------------------
+// functions that must not wait
+
+// blockingOps: the operations in fn and in what it calls synchronously inside the module (depth 2) that can wait for
+// another goroutine: channel send/receive, blocking select, Lock/RLock, WaitGroup/Cond wait, Once.Do, Sleep.
+func (w *World) blockingOps(fn *ssa.Function, except func(ssa.Instruction) bool) []string {
+	var out []string
+	seen := map[*ssa.Function]bool{}
+	var visit func(f *ssa.Function, depth int)
+	visit = func(f *ssa.Function, depth int) {
+		if seen[f] || f.Blocks == nil {
+			return
+		}
+		seen[f] = true
+		allInstrs(f, func(in ssa.Instruction) {
+			if except != nil && except(in) {
+				return
+			}
+			switch x := in.(type) {
+			case *ssa.Send:
+				out = append(out, "channel send @"+w.pos(in.Pos()))
+			case *ssa.Select:
+				if x.Blocking {
+					out = append(out, "blocking select @"+w.pos(in.Pos()))
+				}
+			case *ssa.UnOp:
+				if x.Op.String() == "<-" {
+					out = append(out, "channel receive @"+w.pos(in.Pos()))
+				}
+			case ssa.CallInstruction:
+				if _, isGo := in.(*ssa.Go); isGo {
+					return
+				}
+				cc := x.Common()
+				name := calleeName(cc)
+				switch {
+				case strings.HasSuffix(name, "WaitGroup).Wait"), strings.HasSuffix(name, "Mutex).Lock"), strings.HasSuffix(name, "Mutex).RLock"), name == "time.Sleep", strings.HasSuffix(name, "Cond).Wait"), strings.HasSuffix(name, "Once).Do"), strings.HasSuffix(name, "Mutex).TryLock"):
+					out = append(out, name+" @"+w.pos(in.Pos()))
+				}
+				if cal := cc.StaticCallee(); cal != nil && w.inModule(cal) && depth < 2 && !isWrapperMethod(cal) {
+					visit(cal, depth+1)
+				}
+			}
+		})
+	}
+	visit(fn, 0)
+	sort.Strings(out)
+	return out
+}
+
+// observerSwitchesDoNotWait (C13): the stream's close throws the delivery switch and the end switch of every observer
+// while deliveries may be in progress — also one that is blocked in the consumer, also one that called Close itself.
+// Observer.Close and Observer.CloseEnd only set their switch: no lock, no channel operation, no wait.
+func observerSwitchesDoNotWait(c *Ctx, id string) {
+	w := c.W
+	oi := observerInfo(c, id)
+	pkg := strings.TrimPrefix(strings.TrimPrefix(oi.typ.Obj().Pkg().Path(), modPath), "/")
+	n := 0
+	for _, name := range []string{"Close", "CloseEnd"} {
+		m := w.Method(pkg, oi.typ.Obj().Name(), name)
+		if m == nil {
+			c.Undecided(id, "switch-waits:"+name, 0, "observer.%s not found", name)
+			continue
+		}
+		n++
+		c.see(m)
+		ops := w.blockingOps(m, nil)
+		c.Check(len(ops) == 0, id, "switch-waits:"+name, m.Pos(), "sets its switch and returns", "Observer."+name+" can wait ("+strings.Join(ops, ", ")+"): Stream.Close stops at this observer for as long as a delivery is held up in the consumer — shutdown is no longer bounded, and a Close called from the listener deadlocks")
+	}
+	_ = n
+}
+
+// openDoesNotWait (C11, C12, C15): openStream is what the open-all step, the re-open loop and the rebalance's re-open
+// run for every vBucket; their bounded-retry and fail-stop logic assumes that it makes its request and comes back with
+// the answer. It waits for nothing but that request (no slot, queue, lock or in-flight table in front of it), and
+// once the position was found every return follows the request.
+func openDoesNotWait(c *Ctx, id string) {
+	w := c.W
+	var os *ssa.Function
+	var req ssa.Instruction
+	for _, fn := range w.ModFuncs {
+		if fn.Parent() != nil || fn.Signature.Recv() == nil || recvTypeName(fn.Signature.Recv().Type()) != "stream" {
+			continue
+		}
+		allInstrs(fn, func(in ssa.Instruction) {
+			if cc := callOf(in); cc != nil && isInvokeOf(cc, "Client", "OpenStream") {
+				os, req = fn, in
+			}
+		})
+	}
+	c.need(os != nil, id, "the stream method that calls Client.OpenStream")
+	c.see(os)
+	ops := w.blockingOps(os, nil)
+	c.Check(len(ops) == 0, id, "open-waits@"+fname(os), os.Pos(), "waits for nothing but the request", fname(os)+" can wait for something other than the server's answer ("+strings.Join(ops, ", ")+"): a slot, permit or lock that a failed attempt does not give back stops every later open — the re-open after a rebalance never finishes")
+	// every nil return follows the request
+	var early []string
+	allInstrs(os, func(in ssa.Instruction) {
+		r, ok := in.(*ssa.Return)
+		if !ok || len(r.Results) != 1 {
+			return
+		}
+		// where a nil result comes from: the return itself, a phi edge, or a store into the spilled result of a
+		// function with deferred calls
+		var from []ssa.Instruction
+		seenV := map[ssa.Value]bool{}
+		var src func(v ssa.Value, at ssa.Instruction)
+		src = func(v ssa.Value, at ssa.Instruction) {
+			if seenV[v] {
+				return
+			}
+			seenV[v] = true
+			switch x := v.(type) {
+			case *ssa.Const:
+				if x.Value == nil {
+					from = append(from, at)
+				}
+			case *ssa.Phi:
+				for k, e := range x.Edges {
+					if k < len(x.Block().Preds) {
+						pb := x.Block().Preds[k]
+						src(e, pb.Instrs[len(pb.Instrs)-1])
+					}
+				}
+			case *ssa.UnOp:
+				if al, isAl := x.X.(*ssa.Alloc); isAl && x.Op.String() == "*" {
+					for _, u := range *al.Referrers() {
+						if st, isSt := u.(*ssa.Store); isSt && st.Addr == ssa.Value(al) {
+							src(st.Val, st)
+						}
+					}
+				}
+			}
+		}
+		src(r.Results[0], in)
+		for _, f := range from {
+			if !dominatesInstr(req, f) {
+				early = append(early, w.pos(f.Pos()))
+			}
+		}
+	})
+	c.Check(len(early) == 0, id, "open-skips@"+fname(os), os.Pos(), "success is reported only after the request", fname(os)+" reports success without having made the request (return nil @"+strings.Join(early, ", ")+"): the vBucket is counted as streaming although no stream was asked for")
+}
